@@ -7,6 +7,7 @@ import PyYetiVerif.Props.C13DmigX
 import PyYetiVerif.Props.C13Fmt
 import PyYetiVerif.Props.C13Multi
 import PyYetiVerif.Props.C13Values
+import PyYetiVerif.Props.C13Uset
 #print axioms PyYetiVerif.C13.thru_roundtrip
 #print axioms PyYetiVerif.C13.thru_maximal
 #print axioms PyYetiVerif.C13.nasints_layout
@@ -72,3 +73,5 @@ import PyYetiVerif.Props.C13Values
 #print axioms PyYetiVerif.C13.cord2_roundtrip_values
 #print axioms PyYetiVerif.C13.dmig_roundtrip_values
 #print axioms PyYetiVerif.C13.dmig_lines_int_instance
+#print axioms PyYetiVerif.C13.uset_bulk_roundtrip_labels
+#print axioms PyYetiVerif.C13.uset_bulk_roundtrip_labels_full
